@@ -21,6 +21,8 @@
     list of the items folded so far, most recent first. *)
 From WG Require Import Base.Prelude.
 
+Module PmfM.
+
 Inductive cstate :=
 | CQueued                                  (* spawned, not yet started *)
 | CRunning (w : nat) (acc : list N)        (* executing on worker w *)
@@ -274,3 +276,7 @@ Definition pmf_run (workers : nat) (hint : option nat) (internal : bool) (len : 
   let k := mkCfg workers (pmf_tasks workers hint) internal in
   let s := init k (nseq 0 len) in
   run k (measure s) sched sched s.
+
+
+End PmfM.
+Export PmfM.
